@@ -366,7 +366,8 @@ def batch(a, prop, machine, t0):
             "probes": dict(sorted(agg["probes"].items())),
             "counts": dict(sorted(agg["extra_counts"].items())),
             "distinct_state_fingerprints": len(agg["fps"]),
-            "ngram_coverage": {"bigrams_seen": ng2, "trigrams_seen": ng3, **totals},
+            "ngram_coverage": {"bigrams_seen": ng2, "trigrams_seen": ng3,
+                               "fault_bigrams_seen": len([n for n in agg["ngrams"] if n.startswith("F|")]), **totals},
             "oracle_queries": agg["oracle_queries"],
             "determinism_probe": {"runs_rechecked": len(local), "mismatches": 0},
             "components": machine.components,
